@@ -2,12 +2,34 @@
 """Regenerates MANIFEST.json from the table below (keeps the interface file valid at all times)."""
 import json, subprocess
 
+TRUST = "Trusted: the reference semantics in /verif/harness/qzv-ref (exact ring Z[omega][1/sqrt2], naive and variable-elimination state-sum evaluators, gate-matrix simulator), cross-validated against each other at the start of every run; scalars are read through the raw-parts hook. "
+def mc(text, bounds, technique, ref):
+    return dict(text=text, note=TRUST + "Bounds: " + bounds + " Not covered: sizes beyond the bounds, phases outside the listed alphabets.", technique=technique, ref=ref)
 CHECKS = {
- "C04": dict(
-    text="Bounded exhaustive exploration on the real code: every labelled diagram of the families D(s,b,Phi) and the rule-targeted neighbourhood families x every primitive rule x every argument tuple (all vertices, all ordered pairs incl. equal, boundaries, two absent ids) x both back ends; matcher / unchecked rule / checked rule executed and judged against the independent exact state-sum evaluator. Within the stated bounds nothing is sampled.",
-    note="Trusted: the reference evaluator and ring arithmetic of qzv-ref (naive and variable-elimination evaluators and a gate-matrix simulator cross-validated on every run); bounds: quick <= 3 spiders / <= 2 boundaries, thorough D(3,2,Phi8) plus targeted stars/double stars/gadget pairs; larger diagrams and phases outside the alphabet are not covered.",
-    technique="exhaustive input-space enumeration (small-scope model checking) of real rule code against a reference evaluator",
-    ref="3/C04"),
+ "C01": mc("Exhaustive exploration on the real code: every labelled diagram of the families D(s,b,Phi), the rule-targeted neighbourhoods (stars, double stars, gadget pairs and groups) and every circuit-derived diagram of K(q,d,A) is a seed; explicit-state BFS applies every pub fn of simplify.rs (sequences to depth 1-3, de-duplicated on the concrete graph state) and, separately, every single checked primitive rule at every vertex / ordered pair (rewrite-system BFS, every rule order) on both back ends; every reached state is judged against the root's reference tensor; panics and non-termination (watchdog) are violations.",
+          "quick: D(2,2,Phi6) depth 2, D(3,1,Phi4), tolerance D(2,1), targeted k=1 + gadget groups, K(2,3,A_ct), K(3,2,A_full), rewrite system depth 3 on D(2,1,Phi6); thorough: D(3,2,Phi6), D(4,0,Phi4), D(2,2,Phi8) depth 3, K(2,4), K(3,3), K(3,5,cnot), rewrite system depth 4 on D(3,1,Phi6).",
+          "explicit-state BFS over simplifier / rewrite-rule applications of the real code from exhaustively enumerated seeds, reference-evaluator oracle", "3/C01"),
+ "C02": mc("Every circuit of the families K(q,d,A) (all supported gate kinds, SWAP, CCZ/Toffoli, parity phases, ancilla initialisation / post-selection both as prefix/suffix subsets and inline in every order) x 4 translation-mode combinations x both back ends is translated by the real to_graph_with_options and its reference tensor compared entry by entry with the reference gate-matrix product.",
+          "quick: K(2,3,A_full), K(3,2,A_full), K(2,4,A_ct), K(3,3,anc-inline), A_anc q<=3; thorough: K(2,4,A_full), K(3,3,A_full), K(3,4,A_ct), K(4,2,A_full), K(3,4)/K(4,3) anc-inline.",
+          "exhaustive enumeration of all gate sequences up to a depth, run through the real translator, against a reference simulator", "3/C02"),
+ "C03": mc("Every circuit of K(q,d,A) x {flow, clifford, full} simplification x {gflow, simple-Gauss, up-to-permutation, flow(flow only)} extractor x both back ends: extraction must succeed, use only basic gates, and be projectively equal (non-zero factor) to the source under the reference simulator; up-to-permutation results are composed with the wire permutation read from the leftover graph; the CLI optimiser is run in-process on every circuit of smaller families and its printed QASM re-parsed and compared.",
+          "quick: K(2,3,A_ct+swap), K(3,2,A_full), K(3,4,A_cnot), CLI K(2,2), K(3,1); thorough: K(2,4,A_ct+swap), K(3,3,A_ct), K(2,3,A_full), K(3,6,A_cnot), K(4,4,A_cnot), CLI K(2,3), K(3,2).",
+          "exhaustive enumeration of all gate sequences up to a depth through the real simplify+extract pipeline, projective comparison with a reference simulator", "3/C03"),
+ "C04": mc("Every labelled diagram of D(s,b,Phi) and of the rule-targeted neighbourhood families x every primitive rule x every argument tuple (all vertices, all ordered pairs incl. equal, boundaries, two absent ids) x both back ends; matcher, unchecked rule and checked rule are executed and judged: accept => no panic and reference tensor preserved; reject => checked rule returns false and the graph is ==-identical; matcher verdicts are compared across back ends.",
+          "quick: D(2,2,Phi8), D(3,1,Phi4), D(2,2,Phi6) boundaries-first, targeted k=1; thorough: D(3,2,Phi8), D(3,2,Phi6) boundaries-first, D(2,3,Phi6), targeted k=3.",
+          "exhaustive input-space enumeration (small-scope model checking) of real rule code against a reference evaluator", "3/C04"),
+ "C08": mc("to_tensor4 and to_tensorf of every diagram of D(s,b,Phi) (closed, disconnected, bare/Hadamard wires, X spiders, isolated spiders) and of every circuit-derived diagram, and the circuit evaluator on every circuit of K(q,d,A), compared entry by entry (exactly for Tensor4 via raw parts, 1e-9 for TensorF) with the reference state sum / gate-matrix product; gates documented as unsupported must panic with that message; scalar_eq and == are judged against their definitions on all ordered pairs of small tensors.",
+          "quick: D(2,2,Phi8), D(3,2,{1/4,1}), K(2,2,A_full), K(2,3,A_ct), helper pairs over 6 values; thorough: D(2,3,Phi8), D(3,2,Phi6), K(2,3,A_full), K(3,2,A_full), K(3,3,A_ct), helper pairs over 8 values (16.8 M pairs).",
+          "exhaustive input-space enumeration of the real tensor evaluators against independent reference evaluators", "3/C08"),
+ "C11": mc("adjoint, plug_inputs/plug_outputs with every basis list over {Z0,Z1,X0,X1,SKIP} of every length 0..wires, plug_input/plug_output at every position and is_identity on every diagram of D(s,b,Phi); append_graph on every ordered pair and plug on every composable ordered pair of a diagram family (Hadamard boundary edges, bare wires, cups, caps); results' reference tensors compared with tensor algebra (composition, Kronecker product, conjugate transpose, contraction with basis vectors).",
+          "quick: unary D(2,2,Phi4), pairs over D(1,2,{0,1/4,1}) (183 diagrams); thorough: unary D(2,3,Phi6), pairs over D(2,2,{1/4,1}) u D(1,2,Phi8) (4361 diagrams, 19 M ordered pairs).",
+          "exhaustive enumeration of diagrams, diagram pairs and argument lists through the real graph operations, tensor-algebra oracle", "3/C11"),
+ "C14": mc("Every gate kind of the property's list x every ordered tuple of distinct qubits on 1..3 qubits x every reduced phase k/d, d <= 16, all gate sequences of a printable alphabet, and zero-gate circuits are printed and parsed back by the real code and compared structurally; an enumerated list of QASM texts (all register splits of <= 4 qubits into <= 3 registers, phase spellings, gate definitions, one text per unsupported construct) must parse to the expected gate list or return Err - a panic or a silently shorter gate list is a violation.",
+          "quick: singles + K(2,2) sequences + texts; thorough: + K(2,3), K(3,2) sequences.",
+          "exhaustive enumeration of circuits and QASM texts through the real printer/parser", "3/C14"),
+ "C15": mc("For every circuit of K(q,d,A) with Toffoli/CCZ on every argument order and parity phases of arity 0..4: c + c.to_adjoint() is exactly the identity, to_basic_gates preserves the unitary exactly with exactly the advertised number of basic gates, every + / += variant composes maps in order, reverse twice restores, statistics are a partition, additive over gates and right on every unambiguous gate.",
+          "quick: K(2,3,A_full), K(3,2,rich), K(4,1,rich); thorough: K(2,4,A_full), K(3,3,rich), K(4,2,rich).",
+          "exhaustive enumeration of all gate sequences up to a depth, reference gate-matrix simulator as oracle", "3/C15"),
 }
 NOT_YET = "check not built yet in this session (work in progress; will be claimed once its explorer exists)"
 
